@@ -408,7 +408,7 @@ func monitorOnly(prefix, prop string, in []*Scenario) []*Scenario {
 
 func init() {
 	register(&PropDef{ID: "C06", Level: "model_checking",
-		Rule: "window invariants are monitored on every frame of every execution (sender: un-credited data <= advertised window, chunk <= 16 KiB; receiver: credit granted <= data the application can have consumed; advertised receive window never above 64 KiB at any quiescent point); dedicated scenarios: a scripted raw client (resp. raw server) overruns the window of one of two streams by 1, 16384, 196608 bytes, in a message envelope, a continuation frame or a new message, after the application consumed 0, 1 or 4 frames - all schedules with <= 1 (quick) / 2 (thorough) deviations; oracle: the overrunning RPC ends ResourceExhausted at the receiving application, the tunnel and the bystander RPC are unaffected",
+		Rule:      "window invariants are monitored on every frame of every execution (sender: un-credited data <= advertised window, chunk <= 16 KiB; receiver: credit granted <= data the application can have consumed; advertised receive window never above 64 KiB at any quiescent point); dedicated scenarios: a scripted raw client (resp. raw server) overruns the window of one of two streams by 1, 16384, 196608 bytes, in a message envelope, a continuation frame or a new message, after the application consumed 0, 1 or 4 frames - all schedules with <= 1 (quick) / 2 (thorough) deviations; oracle: the overrunning RPC ends ResourceExhausted at the receiving application, the tunnel and the bystander RPC are unaffected",
 		Globals:   []func(*Scenario, *World, *Exec) []Violation{WinMonitor, ProtoMonitor},
 		Scenarios: c06Scenarios})
 }
